@@ -319,6 +319,16 @@ def action_sites(F, f, action):
     if action.startswith('write:'):
         owner, field = action[6:].rsplit('.', 1)
         return sorted(set(bi for bi, si, pl, rv, ln in f.stmts() if core.write_target(f, pl) == (owner, field)))
+    if action.startswith('ret:'):
+        # blocks that store a value of the given class (Pending, None, Ready, Some, ...) into the return place
+        want = action[4:]
+        out = []
+        for bi, si, pl, rv, ln in f.stmts():
+            if len(pl) == 1 and pl[0] == 0:
+                rc = core._ret_class_rv(rv, f)
+                if rc.split(':')[0] == want:
+                    out.append(bi)
+        return sorted(set(out))
     if action == 'err':
         out = set()
         for bi, si, pl, rv, ln in f.stmts():
@@ -333,7 +343,9 @@ def action_sites(F, f, action):
 def _vocab(p):
     """kind of outcome name: boolean, comparison region, or match arms -- a test rewritten from one kind to another
     (map_or(false, ..) -> match) is not comparable, an inverted test stays within its kind"""
-    return 'b' if p in ('T', 'F') else ('c' if p in ('eq', 'ne', 'lt', 'le', 'gt', 'ge') else 'v')
+    weak = p.startswith('~')
+    p = p.lstrip('~')
+    return ('~' if weak else '') + ('b' if p in ('T', 'F') else ('c' if p in ('eq', 'ne', 'lt', 'le', 'gt', 'ge') else 'v'))
 
 
 def _terms_included(want, got):
